@@ -59,6 +59,14 @@ def gen_world(rng, profile=None):
         chargers = {c: rng.randint(profile.get('min_plugs', 1), profile.get('max_plugs', 2)) for c in ctypes}
         st = ml.mock_station_from_geoid(f's{k}', geoids[0] if profile.get('colocate') else rng.choice(geoids), chargers=chargers,
                                         membership=rand_membership(rng, fleets, 0.8 if profile.get('colocate') else 0.5), env=env)
+        # some plugs are throttled below their factory rate (Station.scale_charger_rate): the station's own charger instance, not
+        # the environment's prototype, is what charging must use.  A separate deterministic stream keeps every other choice of the
+        # case as it was before this was added.
+        rng2 = random.Random(f'throttle|{st.id}|{st.geoid}|{sorted(chargers.items())}')
+        for c in sorted(chargers):
+            if rng2.random() < 0.35:
+                r = st.scale_charger_rate(c, rng2.choice([0.1, 0.5, 0.9]))
+                st = r.unwrap()
         stations.append(st)
     n_b = profile.get('bases', rng.randint(0, 2))
     for k in range(n_b):
@@ -85,6 +93,26 @@ def gen_world(rng, profile=None):
         v = ml.mock_vehicle_from_geoid(vid, (rng.choice(geoids[1:]) if profile.get('near') and len(geoids) > 1 else geoids[0]) if (profile.get('colocate') and rng.random() < 0.7) else rng.choice(geoids), mechatronics=mech, soc=soc, driver_state=driver,
                                        membership=rand_membership(rng, fleets))
         vehicles.append(v)
+    if profile.get('multi_link'):
+        # vehicles that are already under way on a route of SEVERAL links (what a street-graph network produces): chains through the
+        # world's cells, with a zero-length first link (the vehicle sits at the far end of its current link), a closing loop, or a
+        # repeated cell now and then
+        from nrel.hive.model.roadnetwork.linktraversal import LinkTraversal
+        from nrel.hive.state.vehicle_state.repositioning import Repositioning
+        for idx, v in enumerate(vehicles):
+            if rng.random() < 0.8 and len(geoids) > 1:
+                chain = [v.geoid]
+                if rng.random() < 0.35:
+                    chain.append(v.geoid)                       # zero-length first link
+                for _ in range(rng.randint(1, 4)):
+                    nxt = rng.choice([g for g in geoids if g != chain[-1]] or geoids)
+                    chain.append(nxt)
+                if rng.random() < 0.15:
+                    chain.append(v.geoid)                       # loop back to the start
+                from nrel.hive.util.h3_ops import H3Ops
+                links = tuple(LinkTraversal(link_id=f'{a}-{b}', start=a, end=b, distance_km=H3Ops.great_circle_distance(a, b), speed_kmph=40)
+                              for a, b in zip(chain, chain[1:]))
+                vehicles[idx] = v.modify_vehicle_state(Repositioning.build(v.id, links))
     sim = ml.mock_sim(sim_time=t0, sim_timestep_duration_seconds=delta, vehicles=tuple(vehicles), stations=tuple(stations), bases=tuple(bases))
     ids = ([v.id for v in vehicles] + [f's{k}' for k in range(10)] + [f'b{k}' for k in range(4)] + REQ_IDS + CHARGER_IDS
            + FLEETS + ['bev', 'ice', 's1', 'v9', 'v5', 'v6', 'b5', 's5'])
